@@ -628,6 +628,31 @@ def c04_r6(ctx):
     vn = mh.methods.get("visit_Name")
     good = vn is not None and any(isinstance(n, ast.Compare) and norm(n) == "'\"' in node.id" for n in ast.walk(vn.node))
     ctx.check(good, "codegen::ClassDefNamesVisitor.visit_Name::quote test", "forward references are no longer detected by the quoted-name convention", mh.loc(), okmsg="forward refs detected by quoted names")
+    # the finder reports what it finds: visit_Name raises the flag for a quoted name (and only then), and keeps descending;
+    # model_has_forward_refs visits the class with a fresh finder and returns its flag
+    if vn is not None:
+        for quoted in (True, False):
+            outs_ = Interp(vn, lambda e, q=quoted: (q if norm(strip_pre(e)) == "'\"' in node.id" else (not q) if norm(strip_pre(e)) == "'\"' not in node.id" else None),
+                           is_effect=lambda c: (isinstance(c.func, ast.Name) and c.func.id == "<setattr>") or norm(c.func) in ("self.generic_visit",)).run()
+            sets = [[norm(strip_pre(e)) for e in o.effects] for o in outs_]
+            want_flag = "<setattr>(self, 'found_name_with_quote', True)"
+            good_ = bool(sets) and all((want_flag in s_) == quoted and not any("found_name_with_quote', False" in x for x in s_) for s_ in sets)
+            ctx.check(good_, f"codegen::ClassDefNamesVisitor.visit_Name::quoted={quoted}", f"visit_Name on a {'quoted' if quoted else 'plain'} name does {sets}; the flag must be raised exactly for quoted names "
+                      "(never lowered: one plain name after a forward reference would hide it)", mh.loc(), okmsg=f"visit_Name: {'quoted name -> flag raised' if quoted else 'plain name -> flag untouched'}")
+    init_v = mh.methods.get("__init__")
+    st_ = {norm(x.targets[0]): norm(x.value) for x in ast.walk(init_v.node) if isinstance(x, ast.Assign)} if init_v is not None else {}
+    ctx.check(st_.get("self.found_name_with_quote") == "False", "codegen::ClassDefNamesVisitor.__init__::flag", f"a fresh finder must start with the flag lowered: {st_}", mh.loc(), okmsg="finder starts with the flag lowered")
+    mf = repo.func("codegen:model_has_forward_refs")
+    outs_ = Interp(mf, lambda e: None, is_effect=lambda c: isinstance(c.func, ast.Attribute) and c.func.attr == "visit").run()
+    pm = mf.node.args.args[0].arg
+    good_ = bool(outs_)
+    for o in outs_:
+        effs_ = [norm(strip_pre(e)) for e in o.effects]
+        rv_ = norm(strip_pre(o.value)) if o.value is not None else None
+        good_ = good_ and o.kind == "return" and len(effs_) == 1 and effs_[0].endswith(f".visit({pm})") and "ClassDefNamesVisitor()" in (effs_[0] + " " + " ".join(norm(v) for v in o.env.values() if isinstance(v, ast.AST))) \
+            and rv_ is not None and rv_.endswith(".found_name_with_quote")
+    ctx.check(good_, "codegen::model_has_forward_refs::visit", f"model_has_forward_refs must visit the class with a fresh ClassDefNamesVisitor and return its flag: {[o.text()[:100] for o in outs_]}", mf.loc(),
+              okmsg="model_has_forward_refs: fresh finder, visits the class, returns the flag")
     vs = mh.methods.get("visit_Subscript")
     if vs is None:
         ctx.ok("ClassDefNamesVisitor has no visit_Subscript: every subscript is searched (NodeVisitor default)", mh.loc())
